@@ -9,3 +9,35 @@ b = s.index('\n', b) + 1
 e = s.index('<!-- seeded-table:end -->')
 open(p, 'w').write(s[:b] + table + '\n' + s[e:])
 print('seeded table: %d rows' % (len(table.split('\n')) - 2))
+
+import json, glob, os
+tot = first = later = 0
+other, never = [], []
+def caught(t):
+    return re.search(r'(?<!not )caught', t) is not None
+for d in sorted(glob.glob('/verif/seeded/*/')):
+    m = json.load(open(d + 'meta.json')); tot += 1
+    prop = m['property']; ch = m.get('checks', {})
+    own = str(ch.get(prop, '')).lower()
+    others = ' '.join(str(v).lower() for k, v in ch.items() if k not in ('ran', prop, 'strengthened', 'ported'))
+    name = os.path.basename(d[:-1])
+    if 'missed' in own or 'first run' in own:
+        (later := later + 1) if caught(own) else never.append(name)
+    elif own.startswith('not caught') or own == '':
+        other.append(name) if caught(others) else never.append(name)
+    elif caught(own):
+        first += 1
+    else:
+        never.append(name)
+para = ("Totals (%d changes): %d were caught by the check of their own property as it\n"
+        "stood; %d were missed at first and are caught since the check was strengthened\n"
+        "(every such row says what was added); %d are caught by the check of a\n"
+        "neighbouring property that owns the clause they break (a stall is C04's, a\n"
+        "deadline after a dial with timeout is C16's, handlers bypassing the job queue at\n"
+        "the WebSocket layer are C14's, a panicking job is C05's) and are deliberately not\n"
+        "asserted twice: %s. Left uncaught: %s.\n") % (tot, first, later, len(other), ', '.join(other), ', '.join(never) or 'none')
+s = open(p).read()
+b = s.index('<!-- seeded-totals:begin -->') + len('<!-- seeded-totals:begin -->\n')
+e = s.index('<!-- seeded-totals:end -->')
+open(p, 'w').write(s[:b] + para + s[e:])
+print(para)
